@@ -20,6 +20,45 @@ PATCH_POINTS = [("pathlib", "Path", "read_text"), ("pathlib", "Path", "write_tex
                 ("shutil", None, "move")]
 
 
+class FaultyFile:
+    """proxy of a file opened for writing: its write()/truncate() are fault points (a faulting write
+    leaves half of the data behind, as a full disk or a crash would)"""
+
+    def __init__(self, f, inj):
+        self._f, self._inj = f, inj
+
+    def write(self, data):
+        self._inj.n += 1
+        if self._inj.n == self._inj.k:
+            self._f.write(data[:len(data) // 2])
+            self._f.flush()
+            if self._inj.mode == "crash":
+                os._exit(137)
+            raise OSError(28, "injected ENOSPC at call %d" % self._inj.k)
+        return self._f.write(data)
+
+    def truncate(self, *a):
+        self._inj.n += 1
+        if self._inj.n == self._inj.k:
+            if self._inj.mode == "crash":
+                os._exit(137)
+            raise OSError("injected fault at call %d" % self._inj.k)
+        return self._f.truncate(*a)
+
+    def __getattr__(self, name):
+        return getattr(self._f, name)
+
+    def __enter__(self):
+        self._f.__enter__()
+        return self
+
+    def __exit__(self, *a):
+        return self._f.__exit__(*a)
+
+    def __iter__(self):
+        return iter(self._f)
+
+
 class Injector:
     """Raise OSError (mode 'fault') or die without cleanup (mode 'crash') at the k-th patched call."""
 
@@ -42,6 +81,18 @@ class Injector:
                     raise OSError("injected fault at call %d" % self.k)
                 return __orig(*a, **kw)
             setattr(owner, name, wrapper)
+        import builtins, io
+        real_open = builtins.open
+        self.saved.append((builtins, "open", real_open))
+        self.saved.append((io, "open", io.open))
+
+        def fopen(file, mode="r", *a, **kw):
+            f = real_open(file, mode, *a, **kw)
+            if any(c in mode for c in "wax+") and isinstance(file, (str, os.PathLike)) and str(file) != os.devnull:
+                return FaultyFile(f, self)
+            return f
+        builtins.open = fopen
+        io.open = fopen
         return self
 
     def __exit__(self, *exc):
@@ -92,6 +143,70 @@ def check_state(d, targets, backup, new_by_target, old):
             if not (backup and os.path.exists(t + ".orig") and open(t + ".orig").read() == old):
                 problems.append({"target": os.path.basename(t), "content": None})
     return problems
+
+
+def snapshot(d):
+    out = {}
+    for name in sorted(os.listdir(d)):
+        p = os.path.join(d, name)
+        if os.path.isfile(p):
+            out[name] = open(p, "rb").read()
+    return out
+
+
+def fail_before_write(viol):
+    """reading / decoding / formatting fails => nothing is modified; in a multi-file run the files before
+    the failing one are fully formatted, the failing one and the later ones untouched"""
+    import flowmark.reformat_api as api
+    from flowmark.cli import main
+    n = 0
+    for flags in (["-i"], ["-i", "--nobackup"], ["--auto"]):
+        for failure in ("undecodable", "formatter-raises"):
+            d = scratch_dir("vf-c14-")
+            try:
+                names = ["a.md", "b.md", "c.md"]
+                for nm in names:
+                    open(os.path.join(d, nm), "w").write(OPTION_DOC)
+                orig = api.reformat_text
+                if failure == "undecodable":
+                    open(os.path.join(d, "b.md"), "wb").write(b"caf\xe9 \xff\xfe bad utf8\n")
+                else:
+                    calls = {"n": 0}
+
+                    def boom(*a, **kw):
+                        calls["n"] += 1
+                        if calls["n"] == 2:
+                            raise RuntimeError("injected formatter failure")
+                        return orig(*a, **kw)
+                    api.reformat_text = boom
+                before = snapshot(d)
+                try:
+                    with in_dir(d), captured():
+                        try:
+                            rc = main(flags + ["-w", "40"] + names)
+                        except BaseException as e:
+                            rc = "exc:" + type(e).__name__
+                finally:
+                    api.reformat_text = orig
+                after = snapshot(d)
+                n += 1
+                problems = []
+                if rc == 0:
+                    problems.append("exit 0 although a file failed")
+                for nm in ("b.md", "c.md"):
+                    if after.get(nm) != before[nm]:
+                        problems.append("%s was modified although it (or an earlier file) failed: %r" % (nm, after.get(nm, b"<missing>")[:60]))
+                extra = sorted(set(after) - set(before) - {"a.md.orig"})
+                if extra:
+                    problems.append("stray files: %s" % extra)
+                if "a.md" not in after or after["a.md"] in (b"",):
+                    problems.append("a.md damaged")
+                if problems:
+                    viol.append({"clause": "failure_modifies_nothing", "input": {"flags": flags, "failure": failure},
+                                 "got": problems, "rc": str(rc)})
+            finally:
+                shutil.rmtree(d, ignore_errors=True)
+    return n
 
 
 def bounded(tier, seed):
@@ -148,8 +263,10 @@ def bounded(tier, seed):
                         samples.append({"scenario": kind, "mode": mode, "k": k, "rc": str(rc), "state": [list(x) for x in state]})
                 finally:
                     shutil.rmtree(d, ignore_errors=True)
+    evals += fail_before_write(violations)
     return {"evaluations": evals, "distinct_nontrivial": len(distinct), "violations": violations, "samples": samples,
-            "rule": "for each scenario {inplace+backup, inplace, two files, --auto} and each k in 1..#fs-calls: raise OSError "
+            "rule": "(also: undecodable input / raising formatter in a 3-file run leave the failing and later files untouched) "
+                    "for each scenario {inplace+backup, inplace, two files, --auto} and each k in 1..#fs-calls: raise OSError "
                     "at the k-th file-system call (fault) or os._exit the forked process there (crash); then every target must "
                     "hold the complete old or new text (or be recoverable from .orig). distinct = distinct (scenario, mode, "
                     "per-target old/new/absent) outcomes",
